@@ -634,3 +634,9 @@ func IntValue(v string) (string, bool) {
 	}
 	return v, true
 }
+
+func (u *Unit) logWrite(key string, sort Sort) {
+	if u.writeLog != nil {
+		*u.writeLog = append(*u.writeLog, writeRec{key: key, base: intLit(0), sort: sort})
+	}
+}
